@@ -23,6 +23,7 @@ const (
 	envDelays = "DL_DELAYS" // "0,5,200": handler dl-<i> sleeps delays[i] ms before Done()
 	envForced = "DL_FORCED" // "1": the daemon completing the set of N Done() calls creates done.flag
 	envSup    = "DL_SUP"    // pid of the supervisor; daemons stop idling when it is gone
+	envLinger = "DL_LINGER" // ms the LAUNCHER process lingers between daemon.Run() returning true and os.Exit(0) ("slow clean-up")
 
 	maxN          = 8
 	daemonIdleCap = 60 * time.Second // nothing of the harness can live longer than this
@@ -49,6 +50,9 @@ type PreDone struct {
 	Pid int    `json:"pid"`
 	Idx int    `json:"idx"`
 	Seq string `json:"seq"`
+	// Calling: the launcher was still the parent when this was written and the very next
+	// statement of the handler is daemon.Done(). False: Done() is skipped (launcher gone).
+	Calling bool `json:"calling"`
 }
 
 // DoneRec is written after Done() returned.
@@ -60,8 +64,9 @@ type DoneRec struct {
 	Err       string `json:"err,omitempty"`     // its error
 	Skipped   string `json:"skipped,omitempty"` // why Done() was not called
 	PpidAfter int    `json:"ppid_after_done"`   // the daemon's own view
-	// forced schedules: parent 20 ms after Done() returned and before done.flag can exist.
-	// Still the launcher = the launcher survived the signal and sits in the pause hook.
+	// forced schedules: parent 20 ms after Done() was called (sampled by a goroutine of its own,
+	// Done() may block) and before done.flag can exist. Still the launcher = the launcher
+	// survived the signal and sits in the pause hook.
 	PpidSettled int `json:"ppid_settled,omitempty"`
 }
 
@@ -93,6 +98,7 @@ func daemonMain(idx int) {
 	delays := parseDelays(os.Getenv(envDelays))
 	sup, _ := strconv.Atoi(os.Getenv(envSup))
 	pid, lpid := os.Getpid(), os.Getppid()
+	go lifeguard(dir, sup, pid, t0)
 	self, lst := readStat(pid), readStat(lpid)
 	writeAtomic(dir, fmt.Sprintf("marker.%d", pid), Marker{Pid: pid, Idx: idx, Seq: seq, Start: self.Start,
 		Launcher: lpid, LauncherStart: lst.Start, Pgrp: self.Pgrp, Sid: self.Sid})
@@ -101,23 +107,32 @@ func daemonMain(idx int) {
 		time.Sleep(time.Duration(delays[idx]) * time.Millisecond)
 	}
 	rec := DoneRec{Pid: pid, Idx: idx, Seq: seq}
-	writeAtomic(dir, fmt.Sprintf("predone.%d", pid), PreDone{Pid: pid, Idx: idx, Seq: seq})
-	if pp := os.Getppid(); pp != lpid {
+	forced := os.Getenv(envForced) == "1"
+	calling := os.Getppid() == lpid
+	writeAtomic(dir, fmt.Sprintf("predone.%d", pid), PreDone{Pid: pid, Idx: idx, Seq: seq, Calling: calling})
+	if !calling {
 		// The launcher is gone already: Done() would signal an unrelated process (the reaper).
 		// The harness refuses to do that; Launch has returned (or failed) before Done() then,
 		// which the caller's observations show.
-		rec.Skipped = fmt.Sprintf("launcher %d gone before Done(), parent is %d", lpid, pp)
+		rec.Skipped = fmt.Sprintf("launcher %d gone before Done(), parent is %d", lpid, os.Getppid())
 	} else {
+		settled := make(chan int, 1)
+		if forced {
+			go func() { // Done() may block: sample the parent independently of its return
+				time.Sleep(20 * time.Millisecond) // stimulus only: gives an unheld launcher time to exit
+				pp := os.Getppid()
+				writeAtomic(dir, fmt.Sprintf("settled.%d", pid), Pong{Pid: pid, Ppid: pp})
+				settled <- pp
+			}()
+		}
 		rec.Called = true
 		if err := daemon.Done(); err != nil {
 			rec.Err = err.Error()
 		}
-	}
-	rec.PpidAfter = os.Getppid()
-	forced := os.Getenv(envForced) == "1"
-	if forced {
-		time.Sleep(20 * time.Millisecond) // stimulus only: gives an unheld launcher time to exit
-		rec.PpidSettled = os.Getppid()
+		rec.PpidAfter = os.Getppid()
+		if forced {
+			rec.PpidSettled = <-settled
+		}
 	}
 	writeAtomic(dir, fmt.Sprintf("done.%d", pid), rec)
 	if forced && len(listPrefixed(dir, "done.")) >= len(delays) {
@@ -126,15 +141,20 @@ func daemonMain(idx int) {
 			f.Close()
 		}
 	}
+	select {} // the lifeguard ends the process
+}
 
-	// idle until killed; answer one ping; never outlive the scenario
+// lifeguard runs next to the handler from its first moment (Done() may block for as long as it
+// likes): answers one ping, and ends the process when the scenario directory or the supervisor
+// is gone or the hard cap is reached. Nothing of the harness can outlive that.
+func lifeguard(dir string, sup, pid int, t0 time.Time) {
 	ponged := false
 	for time.Since(t0) < daemonIdleCap {
 		if !exists(dir) {
-			return
+			break
 		}
 		if sup > 0 && !exists(fmt.Sprintf("/proc/%d", sup)) {
-			return
+			break
 		}
 		if !ponged && exists(filepath.Join(dir, "ping")) {
 			writeAtomic(dir, fmt.Sprintf("pong.%d", pid), Pong{Pid: pid, Ppid: os.Getppid()})
@@ -142,6 +162,7 @@ func daemonMain(idx int) {
 		}
 		time.Sleep(2 * time.Millisecond)
 	}
+	os.Exit(0)
 }
 
 // CallReport is what the caller observed at the moment one Launch call returned.
